@@ -788,6 +788,9 @@ class Container:
         if source_container is self:
             raise ValueError("Source and destination must be different containers.")
         quantity_to_transfer, unit = Unit.parse_quantity(quantity)
+        if quantity_to_transfer < 0:
+            # however small: the rounded ratio below would let a request of a few picomoles through as -0.0
+            raise ValueError("Quantity to transfer must not be negative.")
 
         def ratio_of(requested, total):
             # an empty source can only give nothing
